@@ -91,10 +91,10 @@ def gen_spec(rnd, gt, profile="mixed"):
     us = UuidSource(rnd)
     E = contract.ENUMS
     known_attr_numbers = contract.schema_enum_numbers(gt, "SymAttribute")
-    hi = {"tiny": 2, "mixed": 3, "wide": 9, "refs": 3}[profile]
+    hi = {"tiny": 2, "mixed": 3, "wide": 9, "refs": 3, "big": 14}[profile]
 
     def count(lo=0):
-        if profile == "wide":
+        if profile in ("wide", "big"):
             return rnd.randint(lo, hi)
         return rnd.choice([0, 1, 1, 2, hi]) if lo == 0 else \
             rnd.choice([1, 1, 2, hi])
